@@ -151,6 +151,43 @@ mod imp {
         t3.join().unwrap();
     }
 
+    /// H4: two threads race on the *hazmat* detection cache (each calls a forward and an inverse round function)
+    /// while a third constructs a cipher through the autodetect cache.
+    fn h4() {
+        let rk: [u8; 16] = key(16, 9).try_into().unwrap();
+        let mut f = BLOCK;
+        refmodels::aes::cipher_round(&mut f, &rk);
+        let mut g = BLOCK;
+        refmodels::aes::equiv_inv_cipher_round(&mut g, &rk);
+        let k1 = key(16, 8);
+        let e1 = ref_enc(&k1, &BLOCK);
+        let mk = move |fwd_first: bool| {
+            loom::thread::spawn(move || {
+                for step in 0..2 {
+                    let mut b = aes::Block::from(BLOCK);
+                    if (step == 0) == fwd_first {
+                        aes::hazmat::cipher_round(&mut b, &aes::Block::from(rk));
+                        assert_eq!(b.as_slice(), &f, "H4 hazmat cipher_round");
+                    } else {
+                        aes::hazmat::equiv_inv_cipher_round(&mut b, &aes::Block::from(rk));
+                        assert_eq!(b.as_slice(), &g, "H4 hazmat equiv_inv_cipher_round");
+                    }
+                }
+            })
+        };
+        let t1 = mk(true);
+        let t2 = mk(false);
+        let t3 = loom::thread::spawn(move || {
+            let c = aes::Aes128Enc::new_from_slice(&k1).unwrap();
+            let mut b = aes::Block::from(BLOCK);
+            c.encrypt_block(&mut b);
+            assert_eq!(b.as_slice(), &e1, "H4 thread 3");
+        });
+        t1.join().unwrap();
+        t2.join().unwrap();
+        t3.join().unwrap();
+    }
+
     pub fn main() {
         let args: Vec<String> = std::env::args().collect();
         let thorough = args.iter().any(|a| a == "thorough");
@@ -160,7 +197,7 @@ mod imp {
             seam::set_override(det);
             let _ = thorough;
             let bound3: Option<usize> = None; // unbounded exploration is cheap for these harnesses (a few thousand executions)
-            for (name, pb, f) in [("H1", None, h1 as fn()), ("H2", bound3, h2 as fn()), ("H3", bound3, h3 as fn())] {
+            for (name, pb, f) in [("H1", None, h1 as fn()), ("H2", bound3, h2 as fn()), ("H3", bound3, h3 as fn()), ("H4", bound3, h4 as fn())] {
                 let full = format!("{name}/{det_name}");
                 let r = std::panic::catch_unwind(|| explore(&full, pb, f));
                 match r {
